@@ -1222,7 +1222,12 @@ nni_ctx_open(nni_ctx **ctxp, nni_sock *sock)
 	nni_mtx_lock(&sock->s_mx);
 	if (sock->s_closing) {
 		nni_mtx_unlock(&sock->s_mx);
-		nni_ctx_rele(ctx);
+		// Nobody else knows this context yet.  It must be closed, not
+		// just released: releasing the last reference of a context
+		// that is not marked closed leaves it registered and on the
+		// socket's list forever, and closing the socket waits for
+		// that list to drain.
+		nni_ctx_close(ctx);
 		return (NNG_ECLOSED);
 	}
 	nni_mtx_unlock(&sock->s_mx);
